@@ -571,3 +571,99 @@ def c03(ck):
     ck.assumptions += ["a digest is 'recorded' when its tag is present with its standard data type; a payload digest "
                        "only together with its algorithm tag", "hash functions collision-free; computed by sha2/sha1/md-5 directly"]
     ck.finish()
+
+
+# ------------------------------------------------------------------------------------ C02
+TRACE_MODULE["C02"] = "Trace_C02"
+
+
+@prop("C02")
+def c02(ck):
+    binary = vlib.build_harness()
+    thorough = ck.tier == "thorough"
+    ck.add_tlc(vlib.mc("MC_Signature", "MC_Signature.cfg", ck.scratch, workers=8, coverage=True))
+    cases = ck.scratch / "sig_cases.ndjson"
+    ck.add_tlc(vlib.gen_cases("Gen_Signature", "Gen_Signature.cfg", ck.scratch, cases))
+    tr = ck.scratch / "c02.ndjson"
+    vlib.run_harness(binary, ["c02", "--out", tr, "--seed", ck.seed, "--cases", cases,
+                              "--flips", 20000 if thorough else 600, "--forgeries", 400 if thorough else 40], timeout=3000)
+    events = read_ndjson(tr)
+    by_id = {e["id"]: e for e in events}
+    nid = max(by_id) + 1
+    # canaries: (1) an episode whose verifier rejected but which reports success, (2) one that reports success
+    # without any consultation, (3) a tampered package reported as verifying
+    eps, cur = [], []
+    for e in events:
+        if e.get("ep_start"):
+            if cur:
+                eps.append(cur)
+            cur = []
+        cur.append(e)
+    if cur:
+        eps.append(cur)
+    def clone_ep(ep, mut):
+        nonlocal nid
+        out = copy.deepcopy(ep)
+        mut(out)
+        ids = []
+        for x in out:
+            x["id"] = nid
+            ids.append(nid)
+            nid += 1
+        return out, ids
+    can_events, can_ret_ids = [], []
+    ep1 = next((ep for ep in eps if ep[0]["event"] == "Begin" and ep[-1].get("result") == "err"
+                and any(x["event"] == "Consult" and x["verdict"] == "reject" for x in ep)), None)
+    ep2 = next((ep for ep in eps if ep[0]["event"] == "Begin" and ep[-1].get("result") == "err"
+                and not any(x["event"] == "Consult" for x in ep) and ep[0]["digests_ok"]), None)
+    ep3 = next((ep for ep in eps if ep[0]["event"] == "Begin" and ep[-1].get("result") == "ok"
+                and any(x["event"] == "Consult" for x in ep)), None)
+    tam = next((ep for ep in eps if ep[0]["event"] == "Tampered" and ep[0]["value_changed"] and ep[0]["verify"] == "err"), None)
+    if not (ep1 and ep2 and ep3 and tam):
+        raise ToolError("C02: no suitable episodes for the canaries")
+    for ep, mut in ((ep1, lambda o: o[-1].__setitem__("result", "ok")),
+                    (ep2, lambda o: o[-1].__setitem__("result", "ok")),
+                    (ep3, lambda o: [x.__setitem__("data", "0" * 64) for x in o if x["event"] == "Consult"][:1]),
+                    (tam, lambda o: o[0].__setitem__("verify", "ok"))):
+        out, ids = clone_ep(ep, mut)
+        can_events += out
+        can_ret_ids.append(ids[-1])
+    events = can_events + events
+    write_ndjson(tr, events)
+    v = vlib.validate_trace("Trace_C02", "Trace_C02.cfg", ck.scratch, tr, shards=8)
+    ck.add_validation(v, traces=len(eps))
+    rej = ck.expect_canary(v["rejects"], can_ret_ids)
+    by_case = {}
+    for e in events:
+        if e.get("case") is not None and e["id"] in by_id:
+            by_case.setdefault(e["case"], []).append(e)
+    for r in rej:
+        e = by_id.get(r["id"])
+        if e is None:
+            continue
+        if e["event"] == "Tampered":
+            ck.violation(f"Tampered:{e['key']}:{e['what']}", "tampered package verified", e)
+        else:
+            ep = by_case.get(e.get("case"), [e])
+            shape = ep[0].get("shape")
+            ck.violation(f"Verify:{json.dumps(shape, sort_keys=True)}", f"{e['event']} {e.get('result', '')}", ep)
+    begins = [e for e in events if e["event"] == "Begin" and e["id"] in by_id]
+    rets = [e for e in events if e["event"] == "Return" and e["id"] in by_id]
+    tams = [e for e in events if e["event"] == "Tampered" and e["id"] in by_id]
+    ck.evaluations = len(begins) + len(tams)
+    ck.nontrivial = len({json.dumps(e["shape"], sort_keys=True) for e in begins}) + \
+        sum(1 for e in tams if e["value_changed"])
+    ck.extra.update(returns_ok=sum(1 for e in rets if e["result"] == "ok"), returns_err=sum(1 for e in rets if e["result"] == "err"),
+                    consultations=sum(1 for e in events if e["event"] == "Consult"),
+                    tampered_changed=sum(1 for e in tams if e["value_changed"]),
+                    forgeries_with_repaired_digests=sum(1 for e in tams if "digests_repaired" in e))
+    ck.samples += [eps[1][:4], tams[1] if len(tams) > 1 else None]
+    ck.rule = ("every signature-header shape of Gen_Signature (OPENPGP absent / wrong type / 0..2 entries good, malformed "
+               "base64 or shorter than five bytes; RSA, DSA, PGP absent / present / wrong type / short) x verdict pattern "
+               "x header digest match / mismatch / absent, through verify_signature with a recording Verifying "
+               "implementation; packages signed with the RSA-4096, protected RSA-3072, Ed25519 and ECDSA keys, tampered by "
+               "single-bit flips of header+payload and by digest-consistent forgeries, verified with the real pgp "
+               "Verifier; non-trivial = distinct shapes + tamperings that changed the parsed value")
+    ck.assumptions += ["cryptography is perfect: the pgp crate's verdict is the oracle for real keys",
+                       "data handed to the verifier is identified by its SHA-256"]
+    ck.finish()
